@@ -618,6 +618,66 @@ def run_getdef_handlers(res):
             res.nontrivial("getdef-handlers", sname, route)
 
 
+def run_error_page_beyond_source(res):
+    """format_exceptions when the failing template line lies beyond the text kept for display (a preprocessor appended
+    lines; the file behind a loaded template was replaced by a shorter one): still an error page naming the exception"""
+    import os
+    from mako.template import Template as T
+
+    class PBoom(Exception):
+        pass
+
+    def boom():
+        raise PBoom("beyond")
+
+    cases = {}
+    cases["preprocessor appends the failing lines"] = lambda: T("line one", preprocessor=lambda t_: t_ + "\n\n\n\n${boom()}", format_exceptions=True)
+    cases["preprocessor list"] = lambda: T("a\nb", preprocessor=[lambda t_: t_ + "\nc", lambda t_: t_ + "\n\n\n${boom()}"], format_exceptions=True)
+
+    def replaced_file():
+        import tempfile as _tf
+        d = _tf.mkdtemp(prefix="c13bs-")
+        fp = os.path.join(d, "t.html")
+        with open(fp, "w") as f:
+            f.write("one\ntwo\nthree\nfour\n${boom()}\n")
+        t = T(filename=fp, format_exceptions=True)
+        with open(fp, "w") as f:
+            f.write("short\n")
+        return t
+
+    cases["file replaced by a shorter one after loading"] = replaced_file
+    # (with the loop context off, `loop` is an ordinary variable: it must not stand in the error page's way)
+    loop_cases = {"enable_loop=False and a `loop` variable in the render data": lambda: T("${loop}|${boom()}", enable_loop=False, format_exceptions=True)}
+    for name, ctor in loop_cases.items():
+        for route in ("render_unicode", "render"):
+            res.evaluations += 1
+            res.count("error_pages_beyond_source")
+            try:
+                out = getattr(ctor(), route)(boom=boom, loop="L")
+                if isinstance(out, bytes):
+                    out = out.decode("utf-8", "replace")
+            except Exception as e:
+                res.violate("error-page-missing", "format_exceptions=True, %s, %s(): raised %s: %s instead of rendering an error page" % (name, route, type(e).__name__, e))
+                continue
+            if "PBoom" not in out or "Mako Runtime Error" not in out:
+                res.violate("error-page-missing", "format_exceptions=True, %s, %s(): output is not the error page: %r" % (name, route, out[:200]))
+    for name, ctor in cases.items():
+        for route in ("render_unicode", "render"):
+            res.evaluations += 1
+            res.count("error_pages_beyond_source")
+            try:
+                t = ctor()
+                out = getattr(t, route)(boom=boom)
+                if isinstance(out, bytes):
+                    out = out.decode("utf-8", "replace")
+            except Exception as e:
+                res.violate("error-page-missing", "format_exceptions=True, %s, %s(): raised %s: %s instead of rendering an error page" % (name, route, type(e).__name__, e))
+                continue
+            if "PBoom" not in out or "Mako Runtime Error" not in out:
+                res.violate("error-page-missing", "format_exceptions=True, %s, %s(): output is not the error page: %r" % (name, route, out[:200]))
+        res.nontrivial("beyond-source", name)
+
+
 def run_supports_caller(res):
     """a plain-Python namespace function decorated with runtime.supports_caller is a callee like any def: when an
     exception passes through it and is handled, `caller` of the code around it is what it was before"""
@@ -688,6 +748,7 @@ def run_case(case):
     res = common.CaseResult()
     if case["kind"] == "getdef_handlers":
         run_getdef_handlers(res)
+        run_error_page_beyond_source(res)
         return res
     if case["kind"] == "supports_caller":
         run_supports_caller(res)
